@@ -88,7 +88,7 @@ func c16ResetAll(p *load.Program, r *oblig.Report) {
 			n++
 			if s := stores[f]; s != nil {
 				okVal, desc := emptyValue(s.Val, reset, f)
-				uncond := s.Block() == reset.Blocks[0] || len(guardCanon(s)) == 0
+				uncond, _ := an.MustPass(reset, an.EntryPoint(reset), func(i ssa.Instruction) bool { return i == ssa.Instruction(s) }, nil)
 				r.Check(okVal && uncond, rule, "compress/snappy."+key+" is emptied by Reset", p.Pos(s.Pos()), "unconditional store of the new stream / zero / self[:0]", fmt.Sprintf("value=%s unconditional=%v", desc, uncond))
 				continue
 			}
